@@ -9,6 +9,7 @@ import (
 	"path/filepath"
 	"sort"
 	"strings"
+	"sync"
 	"time"
 	"unicode/utf8"
 
@@ -342,6 +343,88 @@ func runC05(c *fw.Ctx) {
 			c.Distinct("shapes", s)
 		}
 	}
+	// (e) first readings of fresh names by several goroutines at once
+	for b := 0; b < c.Pick(3, 30); b++ {
+		c05ConcurrentFirstReadings(c, env, fmt.Sprintf("concurrent-first-%d", b), c.Shard*1000+b)
+	}
+}
+
+// c05ConcurrentFirstReadings: several goroutines call the reader at the same moment on texts none of which has been read
+// before in this process (fresh keyword, symbol, string and placeholder names in every text, so that any table the reader
+// keeps between calls is written by all of them at once). Each call runs under recover(); what it returned is compared
+// afterwards with what the same text gives when read alone. A reader that dies with a Go fatal error (concurrent map
+// writes) ends the worker inside this case, which the driver reports (seeded C05-m12).
+func c05ConcurrentFirstReadings(c *fw.Ctx, env types.EnvType, id string, batch int) {
+	c.Case(id, "8 goroutines x 400 texts of fresh names through READ, READWithPreamble and read-string", func() {
+		outcome := func(api int, t string) string {
+			var ast types.MalType
+			var err error
+			p, site, msg, _ := fw.Guard(func() {
+				switch api {
+				case 0:
+					ast, err = lisp.READ(t, nil, env)
+				case 1:
+					ast, err = lisp.READWithPreamble(t, types.NewCursorFile("m"), env)
+				default:
+					ast, err = lisp.EVAL(context.Background(), types.List{Val: []types.MalType{types.Symbol{Val: "read-string"}, t}}, env)
+				}
+			})
+			switch {
+			case p:
+				return "panic@" + site + ": " + msg
+			case err != nil:
+				return "error: " + err.Error()
+			}
+			return "value: " + canon.Render(canon.FromGo(ast))
+		}
+		const G, N = 8, 400
+		texts := make([][]string, G)
+		got := make([][]string, G)
+		for g := 0; g < G; g++ {
+			for k := 0; k < N; k++ {
+				u := fmt.Sprintf("%d-%d-%d", batch, g, k)
+				t := fmt.Sprintf("{:k%[1]s [s%[1]s \"t%[1]s\" :v%[1]s] :w%[1]s #{:m%[1]s} \"u%[1]s\" (q%[1]s %[2]d ¬r%[1]s¬)}", u, k)
+				switch k % 8 {
+				case 5:
+					t = ";; $P" + u + " 1\n\n" + t
+				case 6:
+					t = t[:len(t)/2] // unfinished: an error every time
+				case 7:
+					t = "(" + t + " $X" + u + ")"
+				}
+				texts[g] = append(texts[g], t)
+			}
+			got[g] = make([]string, N)
+		}
+		start := make(chan struct{})
+		var wg sync.WaitGroup
+		for g := 0; g < G; g++ {
+			wg.Add(1)
+			go func(g int) {
+				defer wg.Done()
+				<-start
+				for k, t := range texts[g] {
+					got[g][k] = outcome(k%3, t)
+				}
+			}(g)
+		}
+		close(start)
+		wg.Wait()
+		c.Count("concurrent_first_reading_batches", 1)
+		for g := 0; g < G; g++ {
+			for k, t := range texts[g] {
+				c.Count("concurrent_first_readings", 1)
+				if strings.HasPrefix(got[g][k], "panic@") {
+					c.Violate(fw.Violation{Key: "concurrent:" + strings.SplitN(got[g][k], ":", 2)[0], What: "the reader panicked while other goroutines were reading: " + got[g][k], Input: t})
+					return
+				}
+				if alone := outcome(k%3, t); alone != got[g][k] {
+					c.Violate(fw.Violation{Key: "concurrent-first-readings-interfere", What: fmt.Sprintf("read alone: %s; read for the first time while 7 other goroutines were reading other texts: %s", alone, got[g][k]), Input: t})
+					return
+				}
+			}
+		}
+	})
 }
 
 // c05Fuzz (driver side): coverage-guided extension. Go's native fuzzer mutates the repository's lisp sources and
@@ -415,7 +498,7 @@ func init() {
 	fw.Register(&fw.Property{
 		ID:     "C05",
 		Run:    runC05,
-		Rule:   "inputs = every token sequence up to the tier's length over a 26-token alphabet (space-joined and unseparated), every truncation of a window of every .lisp/.mal file under /repo plus hostile single-rune substitutions, seeded random byte/Unicode/nested texts and preamble shapes; each input goes through 9 reader entry points (READ ±cursor ±environment, READWithPreamble, Read_str with empty/filled placeholder map, read-string via EVAL) and PRINT on success, each under recover() and a 10 s/30 s watchdog; distinct = distinct input texts shorter than 40 bytes; in addition Go's coverage-guided fuzzer (FuzzRead, count-based budget) mutates the repository's sources through 7 entry points; preamble chains of 20-50 lines whose values mention earlier placeholders several times",
+		Rule:   "inputs = every token sequence up to the tier's length over a 26-token alphabet (space-joined and unseparated), every truncation of a window of every .lisp/.mal file under /repo plus hostile single-rune substitutions, seeded random byte/Unicode/nested texts and preamble shapes; each input goes through 9 reader entry points (READ ±cursor ±environment, READWithPreamble, Read_str with empty/filled placeholder map, read-string via EVAL) and PRINT on success, each under recover() and a 10 s/30 s watchdog; distinct = distinct input texts shorter than 40 bytes; in addition Go's coverage-guided fuzzer (FuzzRead, count-based budget) mutates the repository's sources through 7 entry points; preamble chains of 20-50 lines whose values mention earlier placeholders several times; batches of 8 goroutines reading 400 texts each for the first time in the process (fresh keyword/symbol/string/placeholder names) through READ, READWithPreamble and read-string at once, every outcome compared with the same text read alone",
 		Assume: []string{"inputs are at most a few KiB and nested at most 200 deep (host-stack exhaustion on megabytes of '(' is excluded)", "a hang is declared only after 30 s on a re-run; slower-than-10 s cases are counted, not judged"},
 		Finish: func(m *fw.Merged) {
 			c05Fuzz(m)
